@@ -201,7 +201,10 @@ func (self *linkedPairs) BuildIndex() {
 	}
 	for i := 0; i < self.size; i++ {
 		p := self.At(i)
-		self.index[p.hash] = i
+		/* a duplicated key resolves to its first occurrence, like the linear search does */
+		if _, ok := self.index[p.hash]; !ok {
+			self.index[p.hash] = i
+		}
 	}
 }
 
